@@ -23,7 +23,7 @@ func init() {
 		Run:   runC15,
 		Explanation: "Decides a panic-site audit (clauses C15.1-C15.3 of DESIGN.md) over every function reachable from the worker and the informer handlers in the controller, third_party and helper packages: (1) every dereference of an optional (pointer-typed) field of the Advanced API types has a non-nil fact for that exact term, or the field is proven present for every admitted object by the CRD schema read from manifests/crd.v1.yaml on every run (field and all ancestors required or defaulted, not nullable, in every served version); dereferences of nil-initialised local pointers need a non-nil fact too; " +
 			"(2) every index and slice expression on a slice, array or string is proven in range from guard facts (range variables, loop conditions, length tests, the difference-bound closure) or is a reviewed exception; (3) unchecked type assertions, explicit panics, ...OrDie calls and stores into possibly-nil maps are each proven or in the reviewed table. " +
-			"NOT decided: panics inside dependencies; arithmetic overflow other than the known finding D9; objects of the built-in types (pods, revisions) are assumed well-formed as the API server stores them (T4).",
+			"(4) nil results: for producers whose returns give result != nil or error != nil that fact holds after their calls, and every dereference of such a result, also through a parameter of an expanded helper, needs a non-nil fact. NOT decided: panics inside dependencies; arithmetic overflow other than the known finding D9; objects of the built-in types (pods, revisions) are assumed well-formed as the API server stores them (T4).",
 	})
 }
 
